@@ -16,14 +16,6 @@ import (
 	"pgregory.net/rapid"
 )
 
-func init() {
-	// VERIF_MAIN=1 turns the test binary into the real connectconformance CLI
-	// (black-box runs of main() without a separately built binary).
-	if os.Getenv("VERIF_MAIN") == "1" {
-		main()
-		os.Exit(0)
-	}
-}
 
 // vfArg is one occurrence of a pattern flag: a literal pattern or an @file.
 type vfArg struct {
